@@ -11,7 +11,7 @@ from .condfam import *
 from gaussian_toolbox import factor as gt_factor, measure as gt_measure, pdf as gt_pdf, conditional as gt_cond
 
 PROPERTY = "C18"
-LEAN_MODULES = ["GT.Props.C18"]
+LEAN_MODULES = ["GT.Props.C18", "GT.Props.C18Approx"]
 NEEDS_CLASS_TABLE = True
 ASSUMPTIONS = ["jit / vmap / grad are modelled as semantically transparent; their agreement with the real tracer is validated by "
                "running the pipelines, not proved", "gradients compared with central differences (h = 1e-5, rel. tol 1e-5)"]
